@@ -171,15 +171,16 @@ func runScenario(sc *scenario) *result {
 		}
 	}
 	l.settle(idle, settleQuiet, settleBlocked, settleMax)
-	// quiescence marker: the connection is still alive and nothing moves
+	// quiescence marker: the connection is alive, every acknowledgement goroutine has returned, the
+	// processor is back in Receive with nothing to read, the dequeuer is blocked inside Dequeue, and
+	// nothing has been logged for a while
+	b.wg.Wait()
 	select {
 	case <-client.Closed():
 	default:
-		conn.mu.Lock()
-		alive := !conn.closed
-		conn.mu.Unlock()
-		if alive {
-			l.add("Quiescent")
+		calm := func() bool { return conn.consumed() && !conn.consumedClosed() && b.dequeuerBlocked() }
+		if calm() && l.settle(calm, 6*settleQuiet, time.Hour, settleMax) && calm() {
+			l.addIf(calm, "Quiescent")
 		}
 	}
 	finish()
